@@ -95,6 +95,8 @@ def vacuity_scalar(s):
             raise vlib.Infra("vacuous: instantiation %s never executed" % k)
     if s["mixed_order_executions"] == 0:
         raise vlib.Infra("vacuous: no execution with operands of differing derivative order")
+    if s["reduce_cases"] == 0:
+        raise vlib.Infra("vacuous: no reduction case executed")
     if s["comparisons"] < 10 * s["scalar_cases"]:
         raise vlib.Infra("vacuous: too few slot comparisons (%d)" % s["comparisons"])
 
@@ -259,6 +261,10 @@ def run(ctx):
         "temporary_shared_with_another_role_cases": ssum["scalar_info_cases"],
         "temporary_shared_disagreements": ssum["info_disagree"],
         "undefined_expectation_aliased_differs_from_fresh": ssum["undefined_differs"],
+        "reductions_receiver_is_element_of_operand": {
+            "cases": ssum["reduce_cases"], "executions": ssum["reduce_executions"],
+            "agrees_with_contract": ssum["reduce_elem_receiver_agrees"],
+            "disagrees_with_contract": ssum["reduce_elem_receiver_disagrees"]},
         "foreign_defects_same_result_without_aliasing": dict(ssum["foreign_defects"], **csum["foreign_defects"])}
     ctx.extra["recorded"] = {"events": nev, "traces": ntr, "patterns": rsum.get("patterns", {})}
     ctx.extra["bounds"] = {"scalar": conf["scalar"], "containers": conf["cont"],
